@@ -578,6 +578,7 @@ func (eng *Engine) ExtractTrees(cfg HarnessCfg) (*TreeResult, error) {
 			var rootVector []dec
 			for ci := 0; ci <= len(tmpl.chain); ci++ {
 				tc.spawns = nil
+				ex.muted = ci < len(tmpl.chain)
 				start := len(ex.trail)
 				path, ab = eng.runThread(i, tc, fn, args)
 				if ci == 0 {
